@@ -8,6 +8,8 @@ batched call == per-sample calls. Tolerances scale with the input precision and 
 cases whose tolerance would exceed the decision threshold are counted inconclusive, never judged.
 """
 import itertools
+import copy
+
 import numpy as np
 
 from vmon.core import to_numpy, digest
@@ -715,6 +717,17 @@ class Driver:
                         ctx.inconclusive(f'illcond-input/forward/{name}')
                         continue
                     m()
+                    # object lifecycle: a deep copy owns its parameters - evaluated with new parameters it must be the chart at ITS
+                    # theta (the forward contracts compare with the functional form at the instance's own parameters), and the
+                    # original must be unaffected
+                    if scale is not None and scale >= 0.1:
+                        m2 = copy.deepcopy(m)
+                        with torch.no_grad():
+                            for p in m2.parameters():
+                                p.copy_(torch.tensor(self.rng.normal(size=tuple(p.shape)) * min(scale, 3.0), dtype=p.dtype))
+                        if precheck is None or not precheck(m2):
+                            m2()
+                        m()
 
 
 def run_scalar(D):
